@@ -72,7 +72,8 @@ def kitchen_sink():
         # AND and mixed supertype expressions
         ENT("vehicle", [A("vid", T("int"))], super_expr="powered AND wheeled"),
         ENT("powered", [A("kw", T("real"))], supers=["vehicle"]),
-        ENT("wheeled", [A("wheels", T("int"))], supers=["vehicle"]),
+        ENT("wheeled", [A("wheels", T("int")), A("axle", E("point")), A("spares", AGG("LIST", 0, None, E("shape")), True),
+                        A("cargo", D("thing"), True)], supers=["vehicle"]),
         ENT("craft", [A("cid", T("string"))], abstract=True, super_expr="ONEOF (boat, plane ANDOR drone)"),
         ENT("boat", [A("draft", T("real"))], supers=["craft"]),
         ENT("plane", [A("span", T("real"))], supers=["craft"]),
